@@ -132,6 +132,17 @@ pub fn bias_cfg(prop: &str, cfg: &mut Cfg, rng: &mut Rng) {
         return;
     }
     let force_kind = |cfg: &mut Cfg, rng: &mut Rng, kind: u64| {
+        if cfg.get("localcl") == 1 {
+            // local clients are built from the server's channel list: both lists stay identical
+            let n = cfg.get("nsch");
+            let has = (0..n).any(|k| cfg.get(&format!("sch{}_kind", k)) == kind);
+            if !has && n > 0 {
+                let k = rng.below(n);
+                cfg.set(&format!("sch{}_kind", k), kind);
+                cfg.set(&format!("cch{}_kind", k), kind);
+            }
+            return;
+        }
         for prefix in ["sch", "cch"] {
             let n = cfg.get(&format!("n{}", prefix));
             let has = (0..n).any(|k| cfg.get(&format!("{}{}_kind", prefix, k)) == kind);
